@@ -225,7 +225,7 @@ def verify_label(label):
 
 
 def get_date_type_respin(compose_id):
-    pattern = re.compile(r".*(?P<date>\d{8})(?P<type>\.[a-z]+)?(\.(?P<respin>\d+))?.*")
+    pattern = re.compile(r"(^|.*-)(?P<date>\d{8})(?P<type>\.[a-z]+)?(\.(?P<respin>\d+))?.*")
     match = pattern.match(compose_id)
     if not match:
         return None, None, None
